@@ -15,6 +15,10 @@ for pid in sys.argv[1:]:
     res = chk.run_c_functions(list(getattr(P, "C_FUNCS", [])), "quick")
     names = []
     for r in res:
+        if r.get("second_look"):
+            # discharged only with the long budgets: too slow to count as "reliably discharged" (an obligation listed
+            # here that later times out while its weakened form has a model is reported as a violation)
+            continue
         for ob in r["obligations"]:
             if ob["status"] == "discharged":
                 names.append(ob["name"])
